@@ -201,10 +201,203 @@ def _scan_order(ctx, ck, fn, loop, rules, infos, pats) -> None:
     ck.floor('N7', checked, 20, 'documented patterns whose rule order was followed')
 
 
+def _normal_form_by_execution(ctx, ck, rules) -> bool:
+    """N8: the n-ary part of the normal form, decided by executing the reduction driver abstractly (sa/axinterp.py) on chains of
+    opaque operators no binary rule knows, identity operators and scalar operators with symbolic values - every arrangement
+    of up to two scalars and one identity among up to three operators, square and rectangular: in what `apply` returns the
+    opaque operators are the given ones in order, no identity is left, at most one scalar remains, its value is the product
+    of the given ones and it sits on the side with fewer elements.  Returns True when decided."""
+    import itertools
+
+    from ..axinterp import AxArr, Env, Func, Interp, Obj, Opaque, Raised, Sym, Undecided, UNK
+
+    world, table = ctx.world, ctx.table
+    alg = table.get(f'{RULES}.AlgebraicReductionRule')
+    ident = table.by_name('IdentityOperator')
+    homo = table.by_name('HomothetyOperator')
+    generic = table.find('furax._base.dense.DenseBlockDiagonalOperator')
+    reg_cls = table.find(f'{RULES}.RuleRegistry')
+    base = table.get(f'{CORE}.AbstractLinearOperator')
+    apr = table.resolve(alg, 'apply')
+    if generic is None or reg_cls is None or apr is None:
+        return False
+    fn = apr.node
+    binary = [r for r in rules if table.is_subclass(r, f'{RULES}.AbstractBinaryRule') and not r.name.startswith('Abstract')]
+    rank = import_order(world)
+    binary.sort(key=lambda r: (rank.get(r.module.name, 10**6), r.node.lineno))
+    rules_mod = module_of(fn)
+    reg_names = [n for n, d in rules_mod.defs.items() if isinstance(d, (ast.Assign, ast.AnnAssign)) and d.value is not None and 'RuleRegistry' in ast.unparse(d.value)]
+    small = AxArr(((frozenset({'s'}), 3),))
+    big = AxArr(((frozenset({'b'}), 7),))
+    out_fn = base.own.get('out_structure')
+
+    def struct_pairs(shape_kind):
+        # (in, out) of the opaque operators along the chain, left to right, so that the chain composes
+        if shape_kind == 'square':
+            return lambda n: [(small, small)] * n
+        if shape_kind == 'wide':  # the chain maps big -> small: fewer elements on the output (left) side
+            return lambda n: [(big, small)] + [(big, big)] * (n - 1)
+        return lambda n: [(big, big)] * (n - 1) + [(small, big)]  # tall: small -> big, fewer elements on the input (right) side
+
+    def flatten_product(v):
+        if isinstance(v, Sym) and v.op == '*':
+            return flatten_product(v.args[0]) + flatten_product(v.args[1])
+        if isinstance(v, Opaque):
+            return [v.name]
+        if v == 1:
+            return []
+        return [repr(v)]
+
+    from .. import run as _run
+
+    if _run.CONTROL_EXPECT and not _run.CONTROL_EXPECT.endswith('N8'):
+        return False
+    it = Interp(world, table, budget=200_000)
+    it.symbolic = True
+    it.constructible = {k.qual for k in table.operators()} | {k.qual for k in table.classes.values() if k.module.name == rules_mod.name or table.is_subclass(k, f'{RULES}.AbstractRule')}
+    if isinstance(out_fn, ast.FunctionDef):
+        it.summaries[id(out_fn)] = lambda args, kwargs: args[0].attrs.get('__out__', UNK)
+    try:
+        registry = it.construct(reg_cls)
+        for r in binary:
+            has_init = any(isinstance(k.own.get('__init__'), ast.FunctionDef) for k in r.mro)
+            it.call_method(registry, 'register', it.construct(r) if has_init else Obj(r, {}))
+    except (Undecided, Raised):
+        return False
+    for nm in reg_names:
+        it.globals_override[(rules_mod.name, nm)] = registry
+    problems: list[str] = []
+    nchains = 0
+    for shape_kind in ('square', 'wide', 'tall'):
+        for n in (1, 2, 3):
+            io = struct_pairs(shape_kind)(n)
+            for extra in range(0, 3):
+                for positions in itertools.combinations(range(n + extra), extra):
+                    for extras in itertools.product('HI', repeat=extra):
+                        if extras.count('I') > 1:
+                            continue
+                        it.steps = 0
+                        del it.degraded[:]
+                        # build the chain left to right
+                        chain = []
+                        gi = 0
+                        scalars = []
+                        ex = dict(zip(positions, extras))
+                        for pos in range(n + extra):
+                            # structure at this point of the chain: the input structure of what stands to the left
+                            if pos in ex:
+                                st = io[gi][1] if gi < n else io[n - 1][0]
+                                if ex[pos] == 'H':
+                                    name = f'k{len(scalars)}'
+                                    scalars.append(name)
+                                    chain.append(Obj(homo, {'value': Opaque(name), '_in_structure': st}))
+                                    chain[-1].attrs['__out__'] = st
+                                else:
+                                    chain.append(Obj(ident, {'_in_structure': st, '__out__': st}))
+                            else:
+                                i_, o_ = io[gi]
+                                chain.append(Obj(generic, {'_in_structure': i_, '__out__': o_, 'name': f'G{gi}'}))
+                                gi += 1
+                        if len(chain) < 2:
+                            continue
+                        nchains += 1
+                        text = ' @ '.join('k' if o.cls is homo else 'I' if o.cls is ident else o.attrs['name'] for o in chain) + f' ({shape_kind})'
+                        given = [o for o in chain if o.cls is generic]
+                        try:
+                            res = it.call_function(Func(fn, Env(rules_mod), Obj(alg, {}), apr.found_on), [list(chain)], {})
+                        except Raised as exc:
+                            problems.append(f'{text}: apply raises {exc.name}')
+                            continue
+                        except Undecided as exc:
+                            ck.incomplete('N8', fn, f'the reduction driver could not be executed abstractly on {text}: {exc}', instance='normal form by execution')
+                            return False
+                        if it.degraded or not isinstance(res, list) or not all(isinstance(o, Obj) for o in res):
+                            ck.incomplete('N8', fn, f'the reduction driver could not be executed abstractly on {text}: {(it.degraded or ["the result is not a list of operators"])[0]}', instance='normal form by execution')
+                            return False
+                        kept = [o for o in res if o.cls is generic]
+                        hs = [o for o in res if o.cls is homo]
+                        if [id(o) for o in kept] != [id(o) for o in given]:
+                            problems.append(f'{text}: the operators of the chain are not kept in order')
+                        if any(o.cls is ident for o in res) and (given or hs):
+                            problems.append(f'{text}: an identity factor is left in the result')
+                        if len(hs) > 1:
+                            problems.append(f'{text}: {len(hs)} scalar factors are left')
+                        if scalars and len(hs) == 1:
+                            if sorted(flatten_product(hs[0].attrs.get('value'))) != sorted(scalars):
+                                problems.append(f'{text}: the remaining scalar is {hs[0].attrs.get("value")!r}, not the product of {scalars}')
+                            if given:
+                                on_left = res[0] is hs[0]
+                                on_right = res[-1] is hs[0]
+                                want_left = {'square': True, 'wide': True, 'tall': False}[shape_kind]
+                                if not (on_left if want_left else on_right):
+                                    problems.append(f'{text}: the scalar is not on the side with fewer elements ({"left" if want_left else "right"})')
+                        if scalars and not hs:
+                            problems.append(f'{text}: the scalar factors disappeared')
+    # chains in which a binary rule fires: an operator next to its own lazy inverse disappears, the neighbours then meet
+    # (step back), an empty result becomes the identity on the input structure of the chain
+    inv_cls = table.find(f'{CORE}.InverseOperator')
+    if inv_cls is not None:
+        def gen(name):
+            return Obj(generic, {'_in_structure': small, '__out__': small, 'name': name})
+
+        def inv(o):
+            return Obj(inv_cls, {'operator': o, '__out__': small, 'name': o.attrs['name'] + '.I'})
+
+        def scal(name):
+            h = Obj(homo, {'value': Opaque(name), '_in_structure': small})
+            h.attrs['__out__'] = small
+            return h
+
+        A, B, G0, G1 = gen('A'), gen('B'), gen('G0'), gen('G1')
+        cases = [
+            ([inv(A), A], []),
+            ([A, inv(A)], []),
+            ([G0, inv(A), A, G1], [G0, G1]),
+            ([inv(A), inv(B), B, A], []),
+            ([G0, inv(A), inv(B), B, A, G1], [G0, G1]),
+            ([inv(A), B, A], None),
+            ([scal('k0'), inv(A), A], 'scalar-only'),
+            ([inv(A), scal('k0'), A], 'scalar-only'),
+        ]
+        for chain, want in cases:
+            it.steps = 0
+            del it.degraded[:]
+            nchains += 1
+            text = ' @ '.join('k' if o.cls is homo else o.attrs['name'] for o in chain)
+            try:
+                res = it.call_function(Func(fn, Env(rules_mod), Obj(alg, {}), apr.found_on), [list(chain)], {})
+            except Raised as exc:
+                problems.append(f'{text}: apply raises {exc.name}')
+                continue
+            except Undecided as exc:
+                ck.incomplete('N8', fn, f'the reduction driver could not be executed abstractly on {text}: {exc}', instance='normal form by execution')
+                return False
+            if it.degraded or not isinstance(res, list) or not all(isinstance(o, Obj) for o in res):
+                ck.incomplete('N8', fn, f'the reduction driver could not be executed abstractly on {text}: {(it.degraded or ["the result is not a list of operators"])[0]}', instance='normal form by execution')
+                return False
+            if want is None:
+                if [id(o) for o in res] != [id(o) for o in chain]:
+                    problems.append(f'{text}: nothing is reducible, yet the chain is changed')
+            elif want == 'scalar-only':
+                if not (len(res) == 1 and res[0].cls is homo and flatten_product(res[0].attrs.get('value')) == ['k0']):
+                    problems.append(f'{text}: the operator next to its lazy inverse (with a scalar in the chain) does not reduce to the scalar alone: {[o.cls.name for o in res]}')
+            elif not want:
+                if not (len(res) == 1 and res[0].cls is ident and res[0].attrs.get('_in_structure') is small):
+                    problems.append(f'{text}: everything cancels, but the result is {[o.cls.name for o in res]} instead of the identity on the input structure')
+            elif [id(o) for o in res] != [id(o) for o in want]:
+                problems.append(f'{text}: expected {[o.attrs["name"] for o in want]}, got {[o.attrs.get("name", o.cls.name) for o in res]} (an operator next to its own lazy inverse must disappear, and the neighbours that meet must be examined again)')
+    ck.expect('N8', not problems, fn, f'on all {nchains} chains of up to three opaque operators with up to two scalars and an identity (square, wide, tall) the driver returns the operators in order, '
+              'no identity, one scalar = the product, on the side with fewer elements',
+              f'{problems[0] if problems else ""} ({len(problems)} of {nchains} chains are not in normal form)', instance='normal form by execution', semantic=True)
+    ck.floor('N8', nchains, 100, 'chains executed abstractly')
+    return True
+
+
 def run(ctx, ck) -> None:
     world, table = ctx.world, ctx.table
     rules = table.rules()
     infos = {r.qual: rule_info(table, r) for r in rules}
+    n8_decided = _normal_form_by_execution(ctx, ck, rules)
     # ------------------------------------------------------------------ N1
     pats = patterns(table)
     ck.floor('N1', len(pats), 20, 'documented patterns')
@@ -515,7 +708,7 @@ def _stateless(ck, world, table) -> None:
             if why:
                 nbad += 1
                 ck.bad('N5', n, f'{cls.name}.{f.name} {why}: the rule instance lives in the registry for the whole process, so whether a pair is rewritten depends on '
-                       'the pairs the rule has seen before (an irreducible pair of the same classes can disable the pattern for every later chain)', instance=f'{cls.name}.{f.name} state')
+                       'the pairs the rule has seen before (an irreducible pair of the same classes can disable the pattern for every later chain)', instance=f'{cls.name}.{f.name} state', semantic=True)
     if not nbad:
         ck.ok('N5', fns[0][1], f'no rule method stores into its instance, its class or a module global, and none is memoised ({len(fns)} methods): '
               'the outcome for a pair depends on the pair alone', instance='rules keep no state')
@@ -602,6 +795,7 @@ def controls(world: World) -> list[Control]:
         Control('no-step-back', lambda w: edit_def(w, RULES, 'AlgebraicReductionRule.apply', lambda fn: remove_stmt(fn, 'if index > 0:', prefix=True)), 'C07.N2'),
         Control('skip-after-no-rule', lambda w: edit_def(w, RULES, 'AlgebraicReductionRule.apply', lambda fn: replace_stmt(fn, 'index += 1', 'index += 2')), 'C07.N2'),
         Control('identity-not-refiltered', lambda w: edit_def(w, RULES, 'AlgebraicReductionRule.apply', lambda fn: remove_stmt(fn, 'if any((isinstance(op, IdentityOperator) for op in new_ops)):', prefix=True)), 'C07.N4'),
+        Control('no-step-back-after-rewrite', lambda w: edit_def(w, RULES, 'AlgebraicReductionRule.apply', lambda fn: remove_stmt(fn, 'if index > 0:', prefix=True)), 'C07.N8'),
         Control('registry-iterated-backwards', lambda w: edit_def(w, RULES, 'RuleRegistry.__iter__', lambda fn: replace_expr(fn, 'iter(self._registry)', 'iter(self._registry[::-1])')), 'C07.N7'),
         Control('placement-inverted', lambda w: edit_def(w, RULES, 'HomothetyRule.apply', lambda fn: replace_expr(fn, 'first.out_size() <= last.in_size()', 'first.out_size() >= last.in_size()')), 'C07.N3'),
     ]
